@@ -8,6 +8,8 @@ env  : VERIF_SEED (default 20260925), VERIF_TIER, VERIF_OUT (where evidence/ and
 exit : 0 held, 1 violation, 2 harness error / inconclusive
 """
 import argparse, collections, glob, hashlib, itertools, json, multiprocessing, os, re, shutil, subprocess, sys, time, zlib
+sys.path.insert(0, os.path.dirname(os.path.abspath(__file__)))
+import inproc  # noqa: E402  (the in-process transport: the same example programs compiled as servers)
 
 VERIF = os.environ.get("VERIF_HOME", "/verif")
 OUT = os.environ.get("VERIF_OUT", VERIF)
@@ -17,6 +19,7 @@ SCHEMA = "/root/.vp/EVIDENCE.schema.json"
 CRATE = os.environ.get("VERIF_REPO", "/repo") + "/ddo"
 TARGET = os.environ.get("VERIF_EXAMPLES_TARGET", VERIF + "/target/examples")
 BIN = TARGET + "/debug/examples"
+SRV_DIR = os.environ.get("VERIF_C16SRV", os.path.dirname(TARGET.rstrip("/")) + "/c16srv")
 TMP = "%s/target/c16_tmp/%d" % (VERIF, os.getpid())
 os.environ.setdefault("HYPOTHESIS_STORAGE_DIRECTORY", TMP + "/hypothesis")
 
@@ -27,13 +30,20 @@ WIDTHS = (1, 2, 3, None)
 # quick-tier max_examples per example (thorough = 10x); tuned for ~60-120 s wall with 12 workers on 16 cores
 QUICK_EXAMPLES = {"knapsack": 2500, "misp": 900, "max2sat": 1300, "mcp": 1600, "lcs": 2200, "sop": 2000, "tsptw": 1800,
                   "srflp": 1500, "talentsched": 2000, "psp": 2400, "alp": 2000}
+# in-process part (second Hypothesis search per example, other seed, runs through the example compiled as a server: ~0.1 ms per
+# run instead of ~10 ms): quick-tier max_examples (thorough = 10x), and the widths every one of its instances is solved with
+INPROC_EXAMPLES = {"knapsack": 8000, "misp": 5000, "max2sat": 2500, "mcp": 2500, "lcs": 6000, "sop": 5000, "tsptw": 4500,
+                   "srflp": 2500, "talentsched": 5000, "psp": 3000, "alp": 5000}
+INPROC_WIDTHS = (1, 2, 3, 4, 5, 6, 7, 8, None)
 GOLOMB_SIZES = {"quick": range(2, 8), "thorough": range(2, 9)}
 SHRINK_BUDGET_S = {"quick": 40.0, "thorough": 240.0}
 RUN_TIMEOUT_S = {"quick": 60.0, "thorough": 120.0}
 RULE = ("Hypothesis strategies (one per example) draw a structured instance of the example's input format at tiny sizes "
         "(plus all graphs on <= 3 unit-weight vertices for misp/mcp and every golomb size); each instance file is solved by the "
         "example binary for every width in {1,2,3,default} x every offered thread count, plus one width in 4..8 and one in 9..16 (chosen by the hash of the file, as is their thread count), and compared with a brute-force "
-        "enumeration. A case (example, instance hash, width, threads) is non-trivial when the instance has >= 4 decision "
+        "enumeration. A second search per example (other seed, several times more instances) drives the same example program compiled as a "
+        "server process (its own main function called once per request, see c16/inproc.py) with every width in 1..8, two widths in 9..16 and the default width, thread counts alternating; "
+        "a failure seen there is reported only after the real binary has reproduced it. A case (example, instance hash, width, threads) is non-trivial when the instance has >= 4 decision "
         "variables as the example's model counts them (>= 5 for sop/tsptw/srflp whose --width is a multiplier) and the run used "
         "an explicit width; distinct = distinct (example, sha1 of the file text, width, threads).")
 ASSUMPTIONS = [
@@ -43,6 +53,8 @@ ASSUMPTIONS = [
     "alp aircraft sorted by target time, deadlines monotone per class, separations closed under the triangle inequality; "
     "sop acyclic transitively-closed precedences with fixed first and last job; psp 0/1 demands, zero diagonal change-over, metric and non-metric change-over matrices (the shipped benchmark files contain both)",
     "binaries are the dev-profile examples built from /repo's working tree (overflow checks on)",
+    "in-process part: the server binaries are generated from each example's main.rs by three textual substitutions (module paths, name of main, clap parse() -> parse_from(argv)) and built optimised with overflow checks and debug assertions on; "
+    "repeated calls of an example's main function in one process behave like separate processes (a failure that the real binary does not reproduce is counted as inproc-only-discrepancy, not as a violation)",
     "a watchdog expiry that repeats once is inconclusive (exit 2), never a violation; sizes are tiny, so larger instances are not covered",
 ]
 
@@ -566,10 +578,13 @@ class C16Failure(Exception):
 
 class Ctx:
     """per-example statistics and the state needed to keep shrinking cheap and deterministic"""
-    def __init__(self, ex, tier, known):
-        self.ex, self.tier, self.known = ex, tier, known
+    def __init__(self, ex, tier, known, server=None):
+        self.ex, self.tier, self.known, self.server = ex, tier, known, server
+        self.discrepancies = []
         self.threads = ((1, 2) if tier == "quick" else (1, 2, 4)) if SPECS[ex].threads else (None,)
         self.combos = [(w, t) for w in WIDTHS for t in self.threads]
+        if server is not None:  # thread counts alternate (by the hash of the instance) except at the default width
+            self.combos = [(None, t) for t in self.threads]
         self.timeout = RUN_TIMEOUT_S[tier]
         self.dir = "%s/%s" % (TMP, ex)
         os.makedirs(self.dir, exist_ok=True)
@@ -579,7 +594,7 @@ class Ctx:
         self.failed, self.target, self.cache, self.shrink_deadline, self.sampled = False, None, {}, None, set()
 
     def result(self):
-        keys = "ex evaluations instances excluded nontrivial labels samples known_hits known_examples inconclusive"
+        keys = "ex evaluations instances excluded nontrivial labels samples known_hits known_examples inconclusive discrepancies"
         return {k: getattr(self, k) for k in keys.split()}
 
 
@@ -596,10 +611,31 @@ def make_case(ex, inst, text, width, threads, expected):
 def run_case(ctx, ex, inst, text, h, width, threads, expected):
     """one sub-process run -> (kind, message, known id or None, res); kind None when the run is right"""
     path = "%s/%s.txt" % (ctx.dir, h)
-    res = run_binary(argv(ex, path, inst, width, threads), ctx.timeout)
-    v = verdict(ex, expected, res)
-    if v is None:
-        return None, None, None, res
+    cmd = argv(ex, path, inst, width, threads)
+    if ctx.server is not None:
+        res = ctx.server.run(cmd[1:], ctx.timeout)
+        v = verdict(ex, expected, res)
+        if v is None:
+            return None, None, None, res
+        if v[0] != "timeout":
+            # the real example binary decides: a failure seen in-process counts only if a sub-process run reproduces it
+            # (a multi-threaded run gets several attempts); otherwise it is a discrepancy of the transport, listed as such
+            for _attempt in range(1 if threads in (None, 1) else 6):
+                res2 = run_binary(cmd, ctx.timeout)
+                v2 = verdict(ex, expected, res2)
+                if v2 is not None and v2[0] != "timeout":
+                    res, v = res2, v2
+                    break
+            else:
+                ctx.labels["inproc-only-discrepancy:" + ex] += 1
+                if len(ctx.discrepancies) < 5:
+                    ctx.discrepancies.append({"case": make_case(ex, inst, text, width, threads, expected), "reason": "in-process only: %s: %s" % v})
+                return None, None, None, res
+    else:
+        res = run_binary(cmd, ctx.timeout)
+        v = verdict(ex, expected, res)
+        if v is None:
+            return None, None, None, res
     fid = known_signature(ex, inst, width, expected, res, v[0]) if v[0] != "timeout" else None
     return v[0], v[1], fid, res
 
@@ -631,7 +667,7 @@ def examine_instance(ctx, inst):
     try:
         if not shrinking:
             ctx.instances += 1
-            ctx.labels["instances:" + ex] += 1
+            ctx.labels[("inproc_instances:" if ctx.server is not None else "instances:") + ex] += 1
             ctx.labels["infeasible_instances:" + ex] += expected is None
             ctx.labels["nvars:%s" % min(nvars, 8)] += 1
         # two more widths per instance, between the tiny ones and the default: a relaxation that is only slightly unsound shows
@@ -639,6 +675,9 @@ def examine_instance(ctx, inst):
         # function of the instance text, so that replay and shrinking see the same runs.
         hv = int(h[-12:], 16)
         mid = [(4 + hv % 5, ctx.threads[(hv >> 8) % len(ctx.threads)]), (9 + (hv >> 16) % 8, ctx.threads[(hv >> 24) % len(ctx.threads)])]
+        if ctx.server is not None:
+            ws = list(INPROC_WIDTHS[:-1]) + [9 + (hv >> 16) % 8, 9 + ((hv >> 16) % 8 + 1 + (hv >> 20) % 7) % 8]
+            mid = [(w, ctx.threads[(hv >> k) % len(ctx.threads)]) for k, w in enumerate(ws)]
         for width, threads in ([ctx.target[:2]] if shrinking else ctx.combos + mid):
             kind, msg, fid, res = run_case(ctx, ex, inst, text, h, width, threads, expected)
             if not shrinking:
@@ -646,6 +685,7 @@ def examine_instance(ctx, inst):
                 ctx.labels["runs:" + ex] += 1
                 ctx.labels["width:%s" % (width or "default")] += 1
                 ctx.labels["threads:%s" % (threads or "n/a")] += 1
+                ctx.labels["transport:%s" % ("in-process server" if ctx.server is not None else "sub-process")] += 1
                 if nvars >= spec.nt_min and width is not None:
                     ctx.nontrivial.add("%s/%s/%s/%s" % (ex, h, width, threads))
                     if len(ctx.samples) < 2 and kind is None and h not in ctx.sampled and ctx.instances > (4, 40)[len(ctx.samples)]:
@@ -683,7 +723,7 @@ def examine_instance(ctx, inst):
 
 def worker(job):
     """everything for one example, in its own process: enumerated part, then the Hypothesis search"""
-    ex, tier, known = job
+    ex, tier, known, server_bin = job
     ctx, violations, t0 = Ctx(ex, tier, known), [], time.time()
     try:
         fixed = [{"size": n} for n in GOLOMB_SIZES[tier]] if ex == "golomb" else list(exhaustive_instances(ex))
@@ -692,10 +732,8 @@ def worker(job):
             ctx.labels["enumerated_instances:" + ex] += 1
     except C16Failure as f:
         violations.append(f.violation)
-    if SPECS[ex].strategy is not None and not violations:
-        n = QUICK_EXAMPLES[ex] * (1 if tier == "quick" else 10)
-
-        @seed(SEED + zlib.crc32(ex.encode()) % 100000)
+    def search(ctx, n, seed_):
+        @seed(seed_)
         @settings(max_examples=n, database=None, deadline=None, derandomize=False, suppress_health_check=list(HealthCheck),
                   phases=[Phase.generate, Phase.shrink], print_blob=False, verbosity=Verbosity.quiet, report_multiple_bugs=False)
         @given(SPECS[ex].strategy())
@@ -710,7 +748,33 @@ def worker(job):
             if not seen:
                 raise
             violations.append(dict(seen[0], reason=seen[0]["reason"] + " [did not repeat on every re-run: %s]" % type(e).__name__))
-    return dict(ctx.result(), violations=violations, wall=time.time() - t0)
+
+    base_seed = SEED + zlib.crc32(ex.encode()) % 100000
+    if SPECS[ex].strategy is not None and not violations and not os.environ.get("VERIF_C16_INPROC_ONLY"):  # (that variable: calibration runs only)
+        search(ctx, QUICK_EXAMPLES[ex] * (1 if tier == "quick" else 10), base_seed)
+    res = ctx.result()
+    t1 = time.time()
+    # second part: the same example program as an in-process server (c16/inproc.py), many more instances, every width 1..8
+    if SPECS[ex].strategy is not None and not violations and server_bin is not None:
+        ctx2 = Ctx(ex, tier, known, server=inproc.Server(server_bin, RUN_ENV))
+        try:
+            search(ctx2, INPROC_EXAMPLES[ex] * (1 if tier == "quick" else 10), base_seed + 7919)
+        finally:
+            ctx2.server.stop()
+        ctx2.labels["inproc_server_starts:" + ex] += ctx2.server.starts
+        r2 = ctx2.result()
+        res["evaluations"] += r2["evaluations"]
+        res["inproc_instances"] = r2["instances"]
+        res["excluded"] += r2["excluded"]
+        res["nontrivial"] |= r2["nontrivial"]
+        res["labels"].update(r2["labels"])
+        res["samples"] += r2["samples"][:1]
+        res["known_hits"].update(r2["known_hits"])
+        for k, v in r2["known_examples"].items():
+            res["known_examples"].setdefault(k, v)
+        res["inconclusive"] += r2["inconclusive"]
+        res["discrepancies"] += r2["discrepancies"]
+    return dict(res, violations=violations, wall=time.time() - t0, wall_inproc=time.time() - t1)
 
 
 # ----------------------------------------------------------------------------------------------------------------------
@@ -760,6 +824,11 @@ def build():
         print(err or "missing binaries: %s" % missing)
         print("HARNESS-ERROR: the example programs do not build from /repo's working tree (cargo build --examples --offline)")
         sys.exit(2)
+    # the same programs as servers (in-process part); an example whose server cannot be generated or built is skipped there
+    try:
+        return inproc.build([e for e in EXAMPLES if SPECS[e].strategy is not None], CRATE, SRV_DIR)
+    except Exception as e:
+        return {}, {"*": "server crate: %r" % e}
 
 
 def write_replay(v):
@@ -785,7 +854,7 @@ def main(args=None):
     t0, known = time.time(), load_known()
     os.makedirs(TMP, exist_ok=True)
     try:
-        build()
+        servers = build()
         if a.replay:
             verdict_, detail = replay(json.load(open(a.replay)), known, a.tier)
             if verdict_ == "pass":
@@ -799,12 +868,13 @@ def main(args=None):
                 print("replay %s: %s" % (a.replay, detail))
                 print(("INCONCLUSIVE: " if verdict_ == "inconclusive" else "HARNESS-ERROR: ") + detail)
             return {"pass": 0, "known": 0, "fail": 1}.get(verdict_, 2)
-        return run_check(a.tier, only, a.jobs, known, t0)
+        return run_check(a.tier, only, a.jobs, known, t0, servers)
     finally:
         shutil.rmtree(TMP, ignore_errors=True)
 
 
-def run_check(tier, only, jobs, known, t0):
+def run_check(tier, only, jobs, known, t0, servers=({}, {})):
+    server_bins, server_skipped = servers
     violations, errors, inconclusive = [], [], []  # violations: (violation dict, replay path or None)
     known_hits, known_examples, regress_known = collections.Counter(), {}, 0
     for path in sorted(glob.glob(VERIF + "/regress/C16-*.json")):
@@ -824,14 +894,14 @@ def run_check(tier, only, jobs, known, t0):
     results = []
     with multiprocessing.Pool(max(1, min(jobs, len(only)))) as pool:
         order = sorted(only, key=lambda e: -QUICK_EXAMPLES.get(e, 10 ** 6))
-        pending = [(e, pool.apply_async(worker, ((e, tier, known),))) for e in order]
+        pending = [(e, pool.apply_async(worker, ((e, tier, known, server_bins.get(e)),))) for e in order]
         for e, p in pending:
             try:
                 results.append(p.get())
             except Exception as exc:
                 errors.append("worker for %s failed: %r" % (e, exc))
     evaluations, excluded = 0, regress_known
-    nontrivial, labels, samples = set(), collections.Counter(), []
+    nontrivial, labels, samples, discrepancies = set(), collections.Counter(), [], []
     for r in sorted(results, key=lambda r: EXAMPLES.index(r["ex"])):
         evaluations, excluded = evaluations + r["evaluations"], excluded + r["excluded"]
         nontrivial |= r["nontrivial"]
@@ -842,8 +912,13 @@ def run_check(tier, only, jobs, known, t0):
             known_examples.setdefault(k, v)
         violations += [(v, None) for v in r["violations"]]
         inconclusive += ["%s: %s" % (r["ex"], i["reason"]) for i in r["inconclusive"]]
-        print("  %-11s %5d instances %6d runs %5d non-trivial %4d excluded-known %2d violation(s) %6.1fs" % (
-            r["ex"], r["instances"], r["evaluations"], len(r["nontrivial"]), r["excluded"], len(r["violations"]), r["wall"]))
+        discrepancies += r["discrepancies"]
+        print("  %-11s %5d + %6d instances (sub-process + in-process) %7d runs %6d non-trivial %4d excluded-known %2d violation(s) %6.1fs (in-process part %.1fs)" % (
+            r["ex"], r["instances"], r.get("inproc_instances", 0), r["evaluations"], len(r["nontrivial"]), r["excluded"], len(r["violations"]), r["wall"], r.get("wall_inproc", 0.0)))
+    for e, why in sorted(server_skipped.items()):
+        print("  note: in-process part skipped for %s: %s" % (e, why))
+    for d in discrepancies[:5]:
+        print("  note: %s (not reproduced by the real binary; case: %s width %s threads %s)" % (d["reason"], d["case"]["example"], d["case"]["width"], d["case"]["threads"]))
     known_lines = ["KNOWN-FINDING: property=C16 id=%s %s [hit %d time(s)]" % (k, text, known_hits.get(k, 0)) for k, text in known.items()]
     wall = time.time() - t0
     evidence = {
@@ -853,6 +928,8 @@ def run_check(tier, only, jobs, known, t0):
                      "known_finding_hits": {k: known_hits.get(k, 0) for k in known}, "known_finding_examples": known_examples,
                      "known_findings_listed": known_lines, "examples_run": only, "max_examples": {e: QUICK_EXAMPLES[e] * (1 if tier == "quick" else 10) for e in only if e in QUICK_EXAMPLES},
                      "exhaustive_subspaces": {"golomb sizes": list(GOLOMB_SIZES[tier]), "misp/mcp": "all graphs on <= 3 unit-weight vertices"},
+                     "inproc_max_examples": {e: INPROC_EXAMPLES[e] * (1 if tier == "quick" else 10) for e in only if e in INPROC_EXAMPLES and e in server_bins},
+                     "inproc_skipped": server_skipped, "inproc_only_discrepancies": discrepancies[:10],
                      "inconclusive_timeouts": len(inconclusive)},
         "assumptions": ASSUMPTIONS, "wall_s": round(wall, 1), "violations": len(violations)}
     os.makedirs(OUT + "/evidence", exist_ok=True)
